@@ -50,7 +50,8 @@ def rr_cases(draw):
     n = draw(st.integers(1, 6))
     lineup = draw(gen.lineup_spec(kinds=KINDS, min_len=n, max_len=n, max_bs=6))
     ops = draw(st.lists(st.one_of(st.tuples(st.just("calibrate"), st.integers(1, 5)), st.tuples(st.just("restore")),
-                                  st.tuples(st.just("calibrate"), st.integers(1, 5)), st.tuples(st.just("failing_batch"))),
+                                  st.tuples(st.just("calibrate"), st.integers(1, 5)), st.tuples(st.just("failing_batch")),
+                                  st.tuples(st.just("caller_edits_its_list"))),
                         min_size=1, max_size=6))
     ops = [list(o) for o in ops]
     if ops[0][0] != "calibrate":
@@ -84,7 +85,8 @@ def check_rr(ctx: Ctx, case):
     nfail = sum(1 for o in ops if o[0] == "failing_batch")
     try:
         with Logger() as lg, guard(ctx, "C09/exception", sub, case):
-            cal = calib.build(cfg, saving_folder=folder, model=model)
+            line = calib.make_samplers(cfg)        # the caller's own (mutable) list
+            cal = calib.build(cfg, saving_folder=folder, model=model, samplers=line)
             sizes = [s.batch_size for s in cal.scheduler.samplers]
             classes = [type(s).__name__ for s in cal.scheduler.samplers]
             done = 0
@@ -92,6 +94,12 @@ def check_rr(ctx: Ctx, case):
                 if op[0] == "restore":
                     if done:
                         cal = Calibrator.restore_from_checkpoint(folder, model)
+                    continue
+                if op[0] == "caller_edits_its_list":
+                    # the list handed to the constructor belongs to the caller, who may recycle it for something else
+                    line.reverse()
+                    if len(line) > 1:
+                        line.pop()
                     continue
                 if op[0] == "failing_batch":
                     # a batch whose simulation fails is never recorded: it does not count, and it is still that sampler's turn
@@ -107,6 +115,11 @@ def check_rr(ctx: Ctx, case):
                     continue
                 before = len(lg.log)
                 cal.calibrate(op[1])
+                now = [(type(x).__name__, x.batch_size) for x in cal.scheduler.samplers]
+                if now != list(zip(classes, sizes)):
+                    ctx.fail("C09/line-up-changed", f"the scheduler's line-up is now {now}, the calibrator was given "
+                             f"{list(zip(classes, sizes))}", sub, case)
+                    return
                 for k in range(before, len(lg.log)):
                     s, rows = lg.log[k]
                     pos = [i for i, x in enumerate(cal.scheduler.samplers) if x is s]
